@@ -46,6 +46,10 @@ def _jobs(tier, seed):
         for dp, dt in (subsets if len(subsets) <= 6 else r.sample(subsets, 6)):
             jobs.append({"table": table, "order": order, "dynprods": list(dp), "dynterms": list(dt), "origin": "det" if i % 3 else "rand", "nexpr": p["nexpr"]})
         jobs.append({"table": table, "order": order, "dynprods": list(ops), "dynterms": list(ops), "origin": "det" if i % 3 else "rand", "nexpr": p["nexpr"], "prec": True})
+        # only the operator TERMINALS marked dynamic, no production: the filter sees the shifts alone; rejecting every shift where a reduction is
+        # possible encodes one flat left-associative level (round-3 seeded change C18-e: a dynamic terminal no longer made a conflict dynamic)
+        jobs.append({"table": {o: (1, "left") for o in table}, "order": order, "dynprods": [], "dynterms": list(ops), "origin": "det" if i % 3 else "rand",
+                     "nexpr": p["nexpr"], "prec": True, "termsonly": True})
     return jobs
 
 
@@ -112,12 +116,12 @@ def worker(job):
     exprs = [e for e in exprs if len(e) <= 9][: job["nexpr"]]
     if job.get("prec"):
         # precedence-encoding filter on the grammar WITHOUT static marks, everything dynamic: judged by Prec.tla
-        text = grammar_text(table, order, False, ops, ops)
+        text = grammar_text(table, order, False, [] if job.get("termsonly") else ops, ops)
         ntable = {OPNAMES[o]: v for o, v in table.items()}
         flt = stage_prec.make_prec_filter(real, ntable)
         lr, e1 = real.build("lr", text, prefer_shifts=False, prefer_shifts_over_empty=False, dynamic_filter=flt)
         glr, e2 = real.build("glr", text, dynamic_filter=flt)
-        case = {"name": "prec-filter " + text.replace("\n", " "), "gtext": text, "origin": job["origin"],
+        case = {"name": ("prec-filter(terminals only) " if job.get("termsonly") else "prec-filter ") + text.replace("\n", " "), "gtext": text, "origin": job["origin"],
                 "ops": {o: {"prio": p, "assoc": a} for o, (p, a) in table.items()}, "built": lr is not None and glr is not None, "strat": False,
                 "filter": True, "exprs": [], "build_err": (e1 or e2 or "")}
         none = {"kind": "none", "tree": ["?", ""]}
@@ -130,30 +134,36 @@ def worker(job):
                 case["exprs"].append({"toks": toks, "lr": flr, "glr": fglr, "strat_plain": none, "strat_marked": none, "flr": flr, "fglr": fglr})
         return [{"prec_case": case}]
     dynprods, dynterms = job["dynprods"], job["dynterms"]
-    for parser_kind, static in (("lr", True), ("glr", False), ("glr", True)):
+    for parser_kind, static, variant in (("lr", True, ""), ("glr", False, ""), ("glr", True, ""), ("lr", False, "default-strategies")):
         text = grammar_text(table, order, static, dynprods, dynterms)
-        kw = dict(prefer_shifts=False, prefer_shifts_over_empty=False) if parser_kind == "lr" else {}
+        kw = dict(prefer_shifts=False, prefer_shifts_over_empty=False) if parser_kind == "lr" and not variant else {}
         if parser_kind == "lr":
             kw["build_tree"] = True
-        plain, err = real.build(parser_kind, text, **kw)
+        # "default-strategies": Parser with its default prefer-shift strategies on the grammar without static marks; the unfiltered reference is
+        # the parser of the same grammar WITHOUT any dynamic mark (round-3 seeded change C18-f: a dynamic mark changed the static table)
+        plain, err = real.build(parser_kind, grammar_text(table, order, static, [], []) if variant else text, **kw)
         if plain is None:
             continue
-        g = plain.grammar
+        with real.quiet():
+            g = real.Grammar.from_string(text)
         dyn = [bool(p.dynamic) for p in g.productions]
         dterms = [t.name for t in g.terminals.values() if t.dynamic]
         opprods = [p.prod_id for p in g.productions if p.dynamic]
-        policies = [("accept", None)] + [("reject", pid) for pid in opprods[:2]]
+        policies = [("accept", None)] + ([] if variant else [("reject", pid) for pid in opprods[:2]])
         for policy, rp in policies:
             rec = Recorder(real, policy, rp)
             parser, err = real.build(parser_kind, text, dynamic_filter=rec, **kw)
-            if parser is None:
+            if parser is None and not variant:
                 continue
             for toks in exprs:
                 w = " ".join(toks)
                 pk, ptrees, pcomplete = _run(real, plain, w, parser_kind == "glr")
                 rec.calls = []
-                k, trees, complete = _run(real, parser, w, parser_kind == "glr")
-                out.append({"name": "%s [%s,%s%s] @ %r" % (text.replace("\n", " "), parser_kind, policy, "" if rp is None else ":%d" % rp, w),
+                if parser is None:
+                    k, trees, complete = "exc:construction:" + (err or "")[:40], [], True
+                else:
+                    k, trees, complete = _run(real, parser, w, parser_kind == "glr")
+                out.append({"name": "%s [%s%s,%s%s] @ %r" % (text.replace("\n", " "), parser_kind, "," + variant if variant else "", policy, "" if rp is None else ":%d" % rp, w),
                             "gtext": text, "parser": parser_kind, "policy": policy, "rejectp": -1 if rp is None else rp, "input": w, "origin": job["origin"],
                             "dynprods": dyn, "dynterms": dterms, "calls": list(rec.calls), "kind": k, "trees": trees, "plainkind": pk, "plain": ptrees,
                             "complete": complete and pcomplete})
